@@ -47,15 +47,19 @@ MakeView(off, len, mut) ==
 (* conversions that must not change (address, length): as_slice, Deref, From<CSlice> for  *)
 (* &[T], &CSliceMut -> CSliceRef, &mut CSliceMut -> CSliceMut (reborrow), as_slice_mut,   *)
 (* and back into the C form                                                               *)
+KeepHows == {"reborrow_keep", "ref_keep", "as_slice_keep", "as_slice_mut_keep"}
 Convert(how) ==
   /\ view.form # "none"
-  /\ how \in {"as_slice", "deref", "into_slice", "to_c", "mut_to_ref", "reborrow", "as_slice_mut", "into_mut_slice"}
-  /\ (how \in {"as_slice", "deref", "into_slice", "mut_to_ref", "reborrow", "as_slice_mut", "into_mut_slice"} => view.form = "c")
+  /\ how \in {"as_slice", "deref", "into_slice", "to_c", "mut_to_ref", "reborrow", "as_slice_mut", "into_mut_slice"} \cup KeepHows
+  /\ (how \in {"as_slice", "deref", "into_slice", "mut_to_ref", "reborrow", "as_slice_mut", "into_mut_slice"} \cup KeepHows => view.form = "c")
   /\ (how = "to_c" => view.form = "rust")
-  /\ (how \in {"mut_to_ref", "reborrow", "as_slice_mut", "into_mut_slice"} => view.mut)
-  /\ view' = [view EXCEPT !.form = IF how \in {"as_slice", "deref", "into_slice", "as_slice_mut", "into_mut_slice"} THEN "rust" ELSE "c",
-                          !.mut = IF how = "mut_to_ref" THEN FALSE
-                                  ELSE IF how \in {"as_slice", "deref", "into_slice"} THEN FALSE ELSE @]
+  /\ (how \in {"mut_to_ref", "reborrow", "as_slice_mut", "into_mut_slice", "reborrow_keep", "as_slice_mut_keep"} => view.mut)
+  \* the borrowing conversions (&CSliceMut -> CSliceRef, &mut CSliceMut -> CSliceMut, as_slice, as_slice_mut) only BORROW
+  \* the view they are applied to: a second view is derived, used and dropped, and the ORIGINAL is what stays - unchanged
+  /\ view' = IF how \in KeepHows THEN view
+             ELSE [view EXCEPT !.form = IF how \in {"as_slice", "deref", "into_slice", "as_slice_mut", "into_mut_slice"} THEN "rust" ELSE "c",
+                               !.mut = IF how = "mut_to_ref" THEN FALSE
+                                       ELSE IF how \in {"as_slice", "deref", "into_slice"} THEN FALSE ELSE @]
   /\ UNCHANGED <<mem, cell, drops, nextId>> /\ last' = L("ok")
 
 (* write element k of a mutable view (DerefMut / as_slice_mut): lands in the buffer *)
